@@ -279,6 +279,16 @@ class Node(ImmittanceMixin):
         """Rename node name if connected to a component in the list cpts or if
         cpts is None.  Return new node."""
 
+        cct = self.cct
+        # The cached analyses refer to the old node name
+        cct._invalidate()
+        new_node = self._rename(name, cpts)
+        for cpt in cct._elements.values():
+            cpt.node_names = [node.name for node in cpt.nodes]
+        return new_node
+
+    def _rename(self, name, cpts=None):
+
         # Case 1. The name is new and is applied to all components
         # Case 2. The name is not new and is applied to all components
         # Case 3. The name is new and is applied to some of the components
